@@ -144,3 +144,84 @@ def replay_conformance(case):
     prog = ast.literal_eval(case['prog'])
     check_conformance(st, case['src'], prog, case['argv'], case['W'], case['S'], case['unchecked'], tag=case.get('tag', ''))
     return [v['msg'] for v in st.get('viol', [])]
+
+
+def run_program(st, src, argvs, Ws, tag, S=hid.GEN_STACK, unchecked=False, prog=None):
+    """Compile once per word size, run every argv, compare with the reference.
+    Returns (had_violation, cut_off) where cut_off means some reference run ended in an error
+    state or ran forever (so later members of a batch were not reached)."""
+    from .ref.parser import parse_program
+    if prog is None:
+        prog = parse_program(src)
+    nviol = len(st.get('viol', []))
+    cut = False
+    for W in Ws:
+        lines, err = compile_case(src, W, S, unchecked)
+        if err:
+            st.add('evaluations')
+            st.viol(f'{tag}: well-typed program not compiled: {err[0]}: {err[1]}',
+                    {'kind': 'conformance', 'src': src, 'prog': repr(prog), 'argv': list(argvs[0]), 'W': W, 'S': S,
+                     'unchecked': unchecked, 'tag': tag})
+            continue
+        for argv in argvs:
+            ref = ref_trace(prog, argv, W, checked=not unchecked)
+            if ref[0] == 'ok' and ('f', 'win') not in ref[1][0]:
+                cut = True
+            check_conformance(st, src, prog, argv, W, S, unchecked, lines=lines, tag=tag, ref=ref)
+            st.count('dims', f'W{W}')
+    return len(st.get('viol', [])) > nviol, cut
+
+
+def run_batch(st, build, chunk, argvs, Ws, tag, **kw):
+    """Run a batch program; if it fails or is cut off by a terminal state, run every member alone."""
+    st.add('cases', len(chunk))
+    if len(chunk) == 1:
+        run_program(st, build(chunk), argvs, Ws, tag, **kw)
+        return
+    s0 = Stats()
+    bad, cut = run_program(s0, build(chunk), argvs, Ws, tag, **kw)
+    viol = s0.pop('viol', [])
+    for k, v in s0.items():
+        if isinstance(v, dict):
+            for kk, vv in v.items():
+                st.count(k, kk, vv)
+        elif k == 'max_choice_depth':
+            st[k] = max(st.get(k, 0), v)
+        elif k == 'samples':
+            pass
+        else:
+            st.add(k, v)
+    if not (bad or cut):
+        return
+    st.add('batches_split')
+    found = []
+    for k, c in enumerate(chunk):
+        s1 = Stats()
+        run_program(s1, build([c]), argvs, Ws, f'{tag}#{k}', **kw)
+        found.extend(s1.pop('viol', [])[:1])
+        for kk, v in s1.items():
+            if isinstance(v, dict):
+                for k3, vv in v.items():
+                    st.count(kk, k3, vv)
+            elif kk == 'max_choice_depth':
+                st[kk] = max(st.get(kk, 0), v)
+            elif kk != 'samples':
+                st.add(kk, v)
+    if bad and not found:
+        found = viol[:1]
+    if found:
+        st.setdefault('viol', []).extend(found)
+
+
+def std_coverage(total, bounds):
+    cov = {k: total.get(k, 0) for k in ('states', 'transitions', 'traces_validated_against_impl', 'executions',
+                                         'choice_points', 'rollbacks', 'max_choice_depth', 'cycles_closed',
+                                         'speculative_halts', 'evaluations', 'cases', 'ref_replays', 'inconclusive',
+                                         'batches_split')}
+    cov['distinct_outcomes'] = total.get('outcomes', {})
+    cov['dims'] = total.get('dims', {})
+    cov['family_items'] = total.get('family_items', {})
+    cov['monitor_points'] = total.get('monitor_points', {})
+    cov['exhaustive'] = total.get('inconclusive', 0) == 0
+    cov['bounds'] = bounds
+    return cov
